@@ -93,13 +93,23 @@ theorem finishSlot_gone (cfg : Cfg) (w : World) (k : Nat) (x : Slot) (so : Optio
   simp only
   cases kindOf k <;> rfl
 
+/-- the tree a delivery's handlers leave behind is the only thing `landTree` changes -/
+theorem landTree_slots (w : World) (so : Option St) : (landTree w so).slots = w.slots := by
+  unfold landTree; cases so <;> rfl
+theorem landTree_slotj (w : World) (so : Option St) (j : Nat) : (landTree w so).slot j = w.slot j := by
+  unfold landTree; cases so <;> rfl
+theorem landTree_exits (w : World) (so : Option St) : (landTree w so).exits = w.exits := by
+  unfold landTree; cases so <;> rfl
+theorem landTree_gone (w : World) (so : Option St) : (landTree w so).gone = w.gone := by
+  unfold landTree; cases so <;> rfl
+
 theorem deliver_other (cfg : Cfg) (w : World) (k j : Nat) (bs : Str) (h : k ≠ j) :
     (deliver cfg w k bs).1.slot j = w.slot j := by
   unfold deliver
   simp only
   cases (w.slot k).sess with
   | none => rfl
-  | some s => exact finishSlot_other cfg w k j _ _ _ h
+  | some s => exact (finishSlot_other cfg _ k j _ _ _ h).trans (landTree_slotj w _ j)
 
 theorem deliver_exits (cfg : Cfg) (w : World) (k : Nat) (bs : Str) :
     ∃ n, (deliver cfg w k bs).1.exits = w.exits ++ List.replicate n (k, (w.slot k).gen) := by
@@ -107,14 +117,14 @@ theorem deliver_exits (cfg : Cfg) (w : World) (k : Nat) (bs : Str) :
   simp only
   cases (w.slot k).sess with
   | none => exact ⟨0, by simp⟩
-  | some s => exact finishSlot_exits cfg w k _ _ _
+  | some s => obtain ⟨n, hn⟩ := finishSlot_exits cfg (landTree w (some (recvStringD cfg w.nodes w.depth s bs).1)) k (w.slot k) (some { (recvStringD cfg w.nodes w.depth s bs).1 with tree := none }) (recvStringD cfg w.nodes w.depth s bs).2; exact ⟨n, by rw [landTree_exits] at hn; exact hn⟩
 
 theorem deliver_gone (cfg : Cfg) (w : World) (k : Nat) (bs : Str) : (deliver cfg w k bs).1.gone = w.gone := by
   unfold deliver
   simp only
   cases (w.slot k).sess with
   | none => rfl
-  | some s => exact finishSlot_gone cfg w k _ _ _
+  | some s => exact (finishSlot_gone cfg _ k _ _ _).trans (landTree_gone w _)
 
 /-- what a delivery to slot `k` leaves alone: every other slot, the set of clients that went away, and the exit tasks
 of every other slot -/
@@ -160,13 +170,16 @@ theorem recvSlot_apart (cfg : Cfg) (w : World) (k : Nat) (bs : Str) : Apart w (r
     split
     · exact Apart.refl _ _
     · exact deliver_apart cfg w 6 _
-  · obtain ⟨n, hn⟩ := finishSlot_exits cfg w k { w.slot k with pending := (telFeed cfg
+  · obtain ⟨n, hn⟩ := finishSlot_exits cfg (landTree w (applyTel cfg w.nodes w.depth (w.slot k).sess (telFeed cfg
+          (match (w.slot k).sess with | some s => s.opts | none => 0) (w.slot k).pending bs).1).1) k { w.slot k with pending := (telFeed cfg
         (match (w.slot k).sess with | some s => s.opts | none => 0) (w.slot k).pending bs).2.2 }
-        (applyTel cfg w.nodes w.depth (w.slot k).sess (telFeed cfg
-          (match (w.slot k).sess with | some s => s.opts | none => 0) (w.slot k).pending bs).1).1
+        ((applyTel cfg w.nodes w.depth (w.slot k).sess (telFeed cfg
+          (match (w.slot k).sess with | some s => s.opts | none => 0) (w.slot k).pending bs).1).1.map fun s => { s with tree := none })
         (applyTel cfg w.nodes w.depth (w.slot k).sess (telFeed cfg
           (match (w.slot k).sess with | some s => s.opts | none => 0) (w.slot k).pending bs).1).2
-    exact apart_of_exits (fun j h => finishSlot_other cfg w k j _ _ _ h) (finishSlot_gone cfg w k _ _ _) hn
+    rw [landTree_exits] at hn
+    exact apart_of_exits (fun j h => (finishSlot_other cfg _ k j _ _ _ h).trans (landTree_slotj w _ j))
+      ((finishSlot_gone cfg _ k _ _ _).trans (landTree_gone w _)) hn
 
 theorem contains_filter_ne (l : List Nat) (k j : Nat) (h : k ≠ j) : (l.filter (· ≠ k)).contains j = l.contains j := by
   rw [Bool.eq_iff_iff]
